@@ -34,6 +34,8 @@ func c02Years(c *ctx) {
 			f["t"] = t
 			// the head of next year's table: the months both tables contain must be the same months
 			f["tn"] = yearTable(y + 1)[:4]
+			// and this year's table again, recomputed right after the next year's
+			f["t3"] = yearTable(y)
 			// days (UTC+8) of the 31 terms of the table, and how close each instant is to midnight (seconds)
 			terms := [][]int{}
 			for _, v := range ly.GetJieQiJulianDays() {
